@@ -20,6 +20,7 @@ TRUSTED_BASE = [
     "no axioms declared; Print Assumptions output recorded per theorem in coverage.assumptions_report",
     "extraction: ExtrOcamlBasic + ExtrOcamlString (Extract Inductive bool/option/unit/prod/list/sumbool, ascii->char, string->char list); nat/N/Z stay Coq datatypes; OCaml 4.13.1",
     "hand-written Gallina models tied to /repo by the correspondence harness (Go, -tags verif) and the OCaml driver",
+    "lock-step glue ocaml/corelock.ml (maps trace lines to ops of the extracted Comp/Core.v machine, canonicalises outputs; contains no model of the gateway)",
 ]
 
 
